@@ -35,9 +35,13 @@ func verifyFunc(prog *Program, full string) (*FuncReport, error) {
 	func() {
 		defer func() {
 			if r := recover(); r != nil {
-				buf := make([]byte, 1<<14)
+				buf := make([]byte, 1<<12)
 				n := runtime.Stack(buf, false)
-				vc.outOfSubset = fmt.Sprintf("generator panic: %v\n%s", r, buf[:n])
+				lines := strings.Split(string(buf[:n]), "\n")
+				if len(lines) > 12 {
+					lines = lines[:12]
+				}
+				vc.outOfSubset = fmt.Sprintf("generator panic: %v\n%s", r, strings.Join(lines, "\n"))
 			}
 		}()
 		vc.Run()
@@ -64,6 +68,9 @@ func discharge(obls []*Oblig, workers int) {
 					continue
 				}
 				q, t := quickSec, totalSec
+				if o.Budget > 0 {
+					q, t = o.Budget, o.Budget
+				}
 				if o.Cover && !o.Soft {
 					// vacuity guards get the full budget even when the claimed obligations are capped
 					if q < 5 {
